@@ -94,7 +94,7 @@ impl Cors {
         let origin = boxed_origin.unwrap();
         let origin_value = format!("{}", origin.value);
 
-        let is_valid_origin = allow_origins.contains(&origin_value);
+        let is_valid_origin = allow_origins.split(",").any(|allowed| !allowed.is_empty() && allowed == origin_value.as_str());
         if !is_valid_origin {
             return Ok(headers)
         }
@@ -165,7 +165,7 @@ impl Cors {
         let origin = boxed_origin.unwrap();
         let origin_value = format!("{}", origin.value);
 
-        let is_valid_origin = allow_origins.contains(&origin_value);
+        let is_valid_origin = allow_origins.split(",").any(|allowed| !allowed.is_empty() && allowed == origin_value.as_str());
         if !is_valid_origin {
             return Ok(headers)
         }
